@@ -4,7 +4,6 @@ package main
 // Rendering is plumbing: no judgement about acceptance is made here.
 
 import (
-	"encoding/json"
 	"fmt"
 	"strconv"
 	"strings"
@@ -17,8 +16,9 @@ import (
 
 type Value struct {
 	T     string          `json:"t"`
-	B     json.RawMessage `json:"b,omitempty"` // bool for t=bool, []int (bytes) for t=num
-	C     []int           `json:"c,omitempty"` // code points for t=str
+	B     []int           `json:"b,omitempty"`  // bytes of the numeral for t=num
+	Bv    bool            `json:"bv,omitempty"` // t=bool
+	C     []int           `json:"c,omitempty"`  // code points for t=str
 	Items []Value         `json:"items,omitempty"`
 	Ps    []KV            `json:"ps,omitempty"`
 }
@@ -30,8 +30,10 @@ type KV struct {
 
 type RV struct {
 	T     string          `json:"t"`
-	B     json.RawMessage `json:"b,omitempty"`
+	B     []int           `json:"b,omitempty"`
+	Bv    bool            `json:"bv,omitempty"`
 	S     string          `json:"s,omitempty"`
+	Re    *RE             `json:"re,omitempty"`
 	C     []int           `json:"c,omitempty"`
 	Items []RV            `json:"items,omitempty"`
 	Rules []Rule          `json:"rules,omitempty"`
@@ -74,14 +76,63 @@ type Env struct {
 	Enums []NamedEnum `json:"enums,omitempty"`
 }
 
-func rawBool(r json.RawMessage) bool { return string(r) == "true" }
+// RE is the abstract regular expression of spec/Sem.tla; Pattern renders it as RE2 text.
+type RE struct {
+	T   string `json:"t"`
+	C   int    `json:"c,omitempty"`
+	Cs  []int  `json:"cs,omitempty"`
+	Neg bool   `json:"neg,omitempty"`
+	A   *RE    `json:"a,omitempty"`
+	B   *RE    `json:"b,omitempty"`
+}
 
-func rawBytes(r json.RawMessage) []byte {
-	var a []int
-	if err := json.Unmarshal(r, &a); err != nil {
-		fatal(fmt.Sprintf("bad byte list %s", r))
+func reChar(c int, inClass bool) string {
+	r := rune(c)
+	if strings.ContainsRune(`\.+*?()|[]{}^$-/`, r) {
+		return `\` + string(r)
 	}
-	return intsToBytes(a)
+	if c == '\n' {
+		return `\n`
+	}
+	return string(r)
+}
+
+func (re *RE) Pattern() string {
+	switch re.T {
+	case "chr":
+		return reChar(re.C, false)
+	case "set":
+		var sb strings.Builder
+		sb.WriteByte('[')
+		if re.Neg {
+			sb.WriteByte('^')
+		}
+		for _, c := range re.Cs {
+			sb.WriteString(reChar(c, true))
+		}
+		sb.WriteByte(']')
+		return sb.String()
+	case "any":
+		return "."
+	case "cat":
+		return re.A.Pattern() + re.B.Pattern()
+	case "alt":
+		return "(?:" + re.A.Pattern() + "|" + re.B.Pattern() + ")"
+	case "opt":
+		return "(?:" + re.A.Pattern() + ")?"
+	case "star":
+		return "(?:" + re.A.Pattern() + ")*"
+	case "plus":
+		return "(?:" + re.A.Pattern() + ")+"
+	case "bol":
+		return "^"
+	case "eol":
+		return "$"
+	case "eps":
+		return ""
+	}
+	fatal("bad regex node " + re.T)
+	return ""
 }
 
 func quoteCP(c []int) string {
@@ -123,12 +174,12 @@ func (v Value) JSON() string {
 	case "null":
 		return "null"
 	case "bool":
-		if rawBool(v.B) {
+		if v.Bv {
 			return "true"
 		}
 		return "false"
 	case "num":
-		return string(rawBytes(v.B))
+		return string(intsToBytes(v.B))
 	case "str":
 		return quoteCP(v.C)
 	case "arr":
@@ -151,12 +202,14 @@ func (v Value) JSON() string {
 func (r RV) text() string {
 	switch r.T {
 	case "bool":
-		if rawBool(r.B) {
+		if r.Bv {
 			return "true"
 		}
 		return "false"
 	case "num":
-		return string(rawBytes(r.B))
+		return string(intsToBytes(r.B))
+	case "re":
+		return strconv.Quote(r.Re.Pattern())
 	case "id":
 		return strconv.Quote(r.S)
 	case "name":
